@@ -137,6 +137,8 @@ pub fn place_sell_limit_order<R: RngCore, D: Distribution<f64>>(
     let dist = price_dist.sample(rng).abs();
     let price = mid_price + dist;
     let price = round_price_up(price, tick_size);
+    // The rounded price is clamped to Price::MAX, which can be off the tick grid
+    let price = price - price % (tick_size as Price);
     env.place_order(Side::Ask, trade_vol, trader_id, Some(price))
 }
 
@@ -253,6 +255,8 @@ pub fn place_sell_limit_order_market<
     let dist = price_dist.sample(rng).abs();
     let price = mid_price + dist;
     let price = round_price_up(price, tick_size);
+    // The rounded price is clamped to Price::MAX, which can be off the tick grid
+    let price = price - price % (tick_size as Price);
     env.place_order(asset, Side::Ask, trade_vol, trader_id, Some(price))
 }
 
